@@ -33,6 +33,21 @@ def tokenise(html):
     return toks
 
 
+def same_layout(toks, want):
+    """Same spaces and breaks between the same residues (the order of a space and a break at one place is the code's own)."""
+    def groups(ts):
+        out, cur = [], []
+        for t in ts:
+            if t[0] == "res":
+                out.append(sorted(cur))
+                cur = []
+            else:
+                cur.append(t[0])
+        out.append(sorted(cur))
+        return out
+    return groups(toks) == groups(want)
+
+
 def run(ctx):
     lc = common.load_repo(ctx.repo)
     defaults = objmodel.Defaults(lc)
@@ -100,6 +115,30 @@ def run(ctx):
                 break
             ev.append({"kind": "html", "obj": k, "reply": "x", "fresh": "x", "toks": toks, "post": post()})
         trs.append({"tid": i + 1, "ev": ev})
+    # far beyond what TLC renders here (token lists of ten thousand entries): the same rule checked structurally
+    for n_ in (8190, 8195, ctx.pick(9001, 20011)):
+        seq = "".join(ctx.rng.choices(common.AA, k=n_))
+        o = lc.SP(seq)
+        pal = {a: ctx.rng.choice(objmodel.COLOURS) for a in common.AA}
+        common.call(o.set_HTMLColorResiduePalette, dict(pal))
+        html = common.call(o.get_HTMLColorString)
+        ctx.evaluations += 1
+        toks = tokenise(html[1]) if html[0] == "ok" else None
+        want = []
+        for i_, ch in enumerate(seq):
+            if i_ % 50 == 0:
+                want.append(["br"])
+            if i_ % 10 == 0:
+                want.append(["sp"])
+            want.append(["res", pal[ch], ch])
+        if toks is None or [t for t in toks if t[0] == "res"] != [t for t in want if t[0] == "res"]:
+            k_ = -1
+            if toks is not None:
+                got = [t for t in toks if t[0] == "res"]
+                k_ = next((j for j in range(min(len(got), n_)) if got[j] != ["res", pal[seq[j]], seq[j]]), min(len(got), n_))
+            ctx.violation("long-render-residues", {"length": n_, "first_difference_at_residue": k_}, expected="every residue once, in order, in its colour", actual=None if toks is None else len(toks))
+        elif not same_layout(toks, want):
+            ctx.violation("long-render-layout", {"length": n_}, expected="space before residues 0,10,.. and break before 0,50,.. only", actual=len(toks))
     c15.validate_histories(ctx, trs, 2)
     ctx.sample({"trace": [{"kind": e["kind"], "accepted": e.get("accepted")} for e in trs[0]["ev"]]})
     ctx.sample({"tokens": trs[0]["ev"][-1].get("toks", [])[:6]})
